@@ -576,7 +576,8 @@ func init() {
 			return 300 * time.Second
 		},
 		Assume: []string{
-			"supported join form (README): INNER JOIN with a single equality in each ON clause; for three tables the second equality is written in WHERE; WHERE is a conjunction of `table.column op constant` leaves",
+			"supported join form (README): INNER JOIN with a single equality in each ON clause; further equalities (the second join of three tables, a second equality between two tables) are written in WHERE; otherwise WHERE is a conjunction of `table.column op constant` leaves",
+			"table contents: all key multisets of 0-3 rows over 3 key values, plus three contents whose hash-join build side needs more than one temporary page (nine 600-byte rows, 150 rows of 25-50 bytes, 400 narrow rows)",
 			"statistics states: never updated / taken on the current contents / taken on earlier, different contents (the harness calls TableStatistics.Update at those points, which is what the background updater does at times the caller cannot know)",
 			"every cost-minimal plan under the statistics state is executed (hook H3); NULL join keys are not reachable through SQL",
 		},
